@@ -115,6 +115,7 @@ class OrderedWeakSet:
 
 
 _installed = False
+_closed_worlds = 0
 CAPTURED_STATES: list = []
 
 
@@ -306,6 +307,13 @@ class World:
         if _current_loop is self.loop:
             _current_loop = None
         self._teardown()
+        # the cyclic collector is off while worlds run (its timing must not
+        # influence weak sets or "exception never retrieved" reports); the
+        # garbage of finished worlds is collected here, between executions
+        global _closed_worlds
+        _closed_worlds += 1
+        if _closed_worlds % 25 == 0:
+            gc.collect()
 
     def _teardown(self) -> None:
         pass
